@@ -38,6 +38,20 @@ pub fn seed_variant_topbyte(s: &Scalar, _idx: usize) -> Scalar {
         Scalar::from_bytes_mod_order(b)
     })
 }
+pub fn noncanonical_encoding_of(cur: &[u8; 32], _name: &str) -> [u8; 32] {
+    // value + l as a 256-bit little-endian integer (fits: value < l < 2^253)
+    const L: [u8; 32] = [
+        0xed, 0xd3, 0xf5, 0x5c, 0x1a, 0x63, 0x12, 0x58, 0xd6, 0x9c, 0xf7, 0xa2, 0xde, 0xf9, 0xde, 0x14, 0, 0, 0, 0, 0, 0, 0, 0, 0, 0, 0, 0, 0, 0, 0, 0x10,
+    ];
+    let mut out = [0u8; 32];
+    let mut carry = 0u16;
+    for i in 0..32 {
+        let t = cur[i] as u16 + L[i] as u16 + carry;
+        out[i] = t as u8;
+        carry = t >> 8;
+    }
+    out
+}
 pub fn free_point(name: &str) -> RistrettoPoint {
     let mut b = [0u8; 64];
     expand(&format!("point:{}", name), &mut b);
